@@ -35,31 +35,51 @@ def _outer_loop(m, inner):
     return p
 
 
+RUN_PRIMS = {"_run_cp": {"shutil.copy2"}, "_run_mv": {"shutil.move"}, "_run_ln": {"os.link", "os.symlink"}}
+
+
+def _values_of(fn, name, depth=0):
+    """the set of dotted callables a local name can stand for (through plain copies and `a if c else b`)"""
+    if depth > 4:
+        return None
+    out = set()
+    defs = [n.value for n in pyfront.walk_no_nested(fn) if isinstance(n, ast.Assign) and len(n.targets) == 1
+            and isinstance(n.targets[0], ast.Name) and n.targets[0].id == name]
+    if not defs:
+        return {name}
+    for v in defs:
+        alts = [v.body, v.orelse] if isinstance(v, ast.IfExp) else [v]
+        for x in alts:
+            d = pyfront.dotted(x)
+            if d is None:
+                return None
+            if isinstance(x, ast.Name):
+                sub = _values_of(fn, x.id, depth + 1)
+                if sub is None:
+                    return None
+                out |= sub
+            else:
+                out.add(d)
+    return out
+
+
 def r1_transfer_loops(repo=None):
+    """On the run functions with their private helpers inlined: one loop over ilsdrf(src, **kwargs) nested in the loop over the
+    (src, dest) pairs, destination = join(dest, relpath(path, src)), one unconditional call of the command's primitive."""
     r = Rule("C18.R1", "cp, ln and mv run the same loop over the listing, differing only in the transfer primitive (sibling)")
     m = pyfront.mod("list_drf", repo)
-    loops = [(q, f, lp) for q, f, lp in transfer_loops(m) if not q.startswith("_run_ls")]
-    if not loops:
-        raise AnalysisError("no loop over ilsdrf(src, **kwargs) with a transfer found in list_drf")
-    by_fn = {q: (f, lp) for q, f, lp in loops}
     shapes = {}
-    for name, prim in PRIMS.items():
-        f = m.fn(name)
-        # the loop is in the run function itself, or in a helper it calls with the primitive as an argument
-        loc = None
-        if name in by_fn:
-            loc = (name, by_fn[name][0], by_fn[name][1], None)
-        else:
-            for h, call, binding in pyutil.local_helpers(m, f, depth=1):
-                hq = m.qualname_of(h.body[0]) if h.body else None
-                for q, (hf, lp) in by_fn.items():
-                    if hf is h:
-                        loc = (q, hf, lp, binding)
-        if loc is None:
-            raise AnalysisError("%s: transfer loop not found in the function or in a helper it calls" % name)
-        q, hf, inner, binding = loc
-        outer = _outer_loop(m, inner)
-        # which callee is the transfer: the call taking the loop variable of the listing as first argument
+    for name, prim in RUN_PRIMS.items():
+        fv = m.flat(name)
+        f = fv.fn()
+        env = pyutil.single_alias_env(f)
+        inners = [lp for lp in ast.walk(f) if isinstance(lp, ast.For) and isinstance(lp.iter, ast.Call) and pyfront.call_name(lp.iter) == "ilsdrf"
+                  and any(k.arg is None for k in lp.iter.keywords)]
+        if len(inners) != 1:
+            raise AnalysisError("%s: loop over ilsdrf(src, **kwargs) not found exactly once (helpers inlined: %s)" % (name, fv.inlined))
+        inner = inners[0]
+        outer = _outer_loop(fv, inner)
+        q = name
         srcvar = inner.target.id if isinstance(inner.target, ast.Name) else None
         tcalls = [c for c in ast.walk(inner) if isinstance(c, ast.Call) and c.args and isinstance(c.args[0], ast.Name)
                   and c.args[0].id == srcvar and len(c.args) == 2 and pyfront.call_name(c) not in ("os.path.relpath", "os.path.join")]
@@ -69,17 +89,17 @@ def r1_transfer_loops(repo=None):
             continue
         tc = tcalls[0]
         callee = pyfront.call_name(tc)
-        actual = callee
-        if binding is not None and callee in binding:
-            actual = norm(ast.unparse(binding[callee]))
-        if actual not in prim:
-            r.violation(m.rel, name, "transfer primitive `%s`" % actual, "`drf %s` transfers files with %s instead of %s" % (
-                name[5:], actual, sorted(prim)), line=tc.lineno)
+        actual = _values_of(f, callee) if isinstance(tc.func, ast.Name) else {callee}
+        if actual is None:
+            raise AnalysisError("%s: the transfer callable `%s` could not be resolved" % (name, callee))
+        if not actual <= prim:
+            r.violation(m.rel, name, "transfer primitive `%s`" % ", ".join(sorted(actual)), "`drf %s` transfers files with %s instead of %s" % (
+                name[5:], sorted(actual), sorted(prim)), line=tc.lineno)
             continue
         # no filter / early exit / conditional transfer
         extra = [x for x in ast.walk(inner) if isinstance(x, (ast.Continue, ast.Break, ast.Return))]
-        cond = [a_ for a_ in _anc(m, tc) if isinstance(a_, (ast.If, ast.Try, ast.While)) and _inside(inner, a_)]
-        src_iter = outer is not None and norm(ast.unparse(outer.iter)) == "args.srcdests"
+        cond = [a_ for a_ in _anc(fv, tc) if isinstance(a_, (ast.If, ast.Try, ast.While)) and any(a_ is x for x in ast.walk(inner))]
+        src_iter = outer is not None and norm(ast.unparse(pyutil.dealias(outer.iter, env))) == "args.srcdests"
         srcname = norm(ast.unparse(inner.iter.args[0])) if inner.iter.args else None
         pair_ok = outer is not None and isinstance(outer.target, ast.Tuple) and len(outer.target.elts) == 2 \
             and isinstance(outer.target.elts[0], ast.Name) and outer.target.elts[0].id == srcname
@@ -97,8 +117,8 @@ def r1_transfer_loops(repo=None):
         if not dp:
             raise AnalysisError("%s: definition of the destination path `%s` not found" % (q, dvar))
         if rel_ok:
-            r.ok("%s:%s %s%s" % (m.rel, inner.lineno, name, "" if q == name else " (via %s)" % q),
-                 "for every path of ilsdrf(src, **kwargs): destination = join(dest, relpath(path, src)); one unconditional %s" % actual)
+            r.ok("%s:%s %s%s" % (m.rel, inner.lineno, name, (" (inlined: %s)" % ", ".join(fv.inlined)) if fv.inlined else ""),
+                 "for every path of ilsdrf(src, **kwargs): destination = join(dest, relpath(path, src)); one unconditional %s" % "/".join(sorted(actual)))
         else:
             r.violation(m.rel, q, norm(ast.unparse(dp[0]))[:100], "the destination path is not dest joined with "
                         "os.path.relpath(srcpath, src): files can land at a different relative path (e.g. string slicing is wrong "
@@ -108,6 +128,7 @@ def r1_transfer_loops(repo=None):
         for c in ast.walk(t):
             if isinstance(c, ast.Call) and pyfront.call_name(c) == callee:
                 c.func = ast.Name(id="TRANSFER", ctx=ast.Load())
+        t.iter = pyutil.dealias(t.iter, env)
         shapes[name] = pyutil.alpha(t)
     if len(shapes) == 3:
         if len(set(shapes.values())) == 1:
@@ -132,25 +153,36 @@ def _inside(outer, n):
 
 
 def _deleted_keys(m, fn):
-    """Keys removed from the kwargs dict built from vars(args): `del kwargs["k"]` statements in fn, or a constant tuple
-    handed to a helper that deletes `for key in <param>: del kwargs[key]`."""
+    """Keys removed from the kwargs dict built from vars(args), in fn with its private helpers inlined: `del kwargs["k"]`
+    statements, or `for key in <constant tuple>: del kwargs[key]` (the tuple may be a local or a module-level constant)."""
+    from .. import cfold
     keys = set()
+    env = pyutil.single_alias_env(fn)
+    fold = cfold.Folder(getattr(m, "_repo", None))
     for n in ast.walk(fn):
         if isinstance(n, ast.Delete):
             for t in n.targets:
                 if isinstance(t, ast.Subscript) and isinstance(pyfront.const(t.slice), str):
                     keys.add(pyfront.const(t.slice))
-    for h, call, binding in pyutil.local_helpers(m, fn, depth=1):
-        loops = [lp for lp in ast.walk(h) if isinstance(lp, ast.For) and isinstance(lp.iter, ast.Name) and lp.iter.id in binding
-                 and any(isinstance(d, ast.Delete) and isinstance(d.targets[0], ast.Subscript) and isinstance(d.targets[0].slice, ast.Name)
-                         and isinstance(lp.target, ast.Name) and d.targets[0].slice.id == lp.target.id for d in ast.walk(lp))]
-        for lp in loops:
-            arg = binding[lp.iter.id]
-            if isinstance(arg, (ast.Tuple, ast.List)) and all(isinstance(pyfront.const(e), str) for e in arg.elts):
-                keys |= {pyfront.const(e) for e in arg.elts}
-            else:
-                raise AnalysisError("%s: keys excluded from the ilsdrf kwargs are not a constant tuple" % m.qualname_of(call))
-        keys |= _deleted_keys(m, h) if not loops else set()
+        if isinstance(n, ast.For) and isinstance(n.target, ast.Name) and any(
+                isinstance(d, ast.Delete) and isinstance(d.targets[0], ast.Subscript) and isinstance(d.targets[0].slice, ast.Name)
+                and d.targets[0].slice.id == n.target.id for d in ast.walk(n)):
+            it = pyutil.dealias(n.iter, env)
+            if isinstance(it, ast.Name):
+                ds = [x.value for x in ast.walk(fn) if isinstance(x, ast.Assign) and len(x.targets) == 1 and isinstance(x.targets[0], ast.Name)
+                      and x.targets[0].id == it.id]
+                if len(ds) == 1:
+                    it = pyutil.dealias(ds[0], env)
+            vals = None
+            if isinstance(it, (ast.Tuple, ast.List)) and all(isinstance(pyfront.const(e), str) for e in it.elts):
+                vals = [pyfront.const(e) for e in it.elts]
+            elif isinstance(it, ast.Name):
+                mv = m.module_assign(it.id) if hasattr(m, "module_assign") else None
+                if isinstance(mv, (ast.Tuple, ast.List)) and all(isinstance(pyfront.const(e), str) for e in mv.elts):
+                    vals = [pyfront.const(e) for e in mv.elts]
+            if vals is None:
+                raise AnalysisError("%s: keys excluded from the ilsdrf kwargs are not a constant tuple (`%s`)" % (fn.name, norm(ast.unparse(n.iter))))
+            keys |= set(vals)
     return keys
 
 
@@ -164,12 +196,25 @@ def _dests(m, fname):
             dest = pyfront.const(pyfront.kwarg(c, "dest"))
             if dest is None:
                 longs = [o for o in opts if o and o.startswith("--")]
-                dest = longs[0][2:].replace("-", "_") if longs else (opts[0].lstrip("-") if opts else None)
+                dest = longs[0][2:].replace("-", "_") if longs else (opts[0].lstrip("-") if opts and opts[0] else None)
+                if dest is None:
+                    raise AnalysisError("%s: option names of an add_argument call are not constants (`%s`)" % (fname, norm(ast.unparse(c))[:80]))
             out.setdefault(dest, []).append((pyfront.const(pyfront.kwarg(c, "action")), opts, pyfront.kwarg(c, "default")))
         elif isinstance(c, ast.Call) and isinstance(c.func, ast.Name) and c.func.id in m.functions and c.func.id.startswith("_add_"):
             for k, v in _dests(m, c.func.id).items():
                 out.setdefault(k, []).extend(v)
     return out
+
+
+def prepare_fn(m):
+    """the private function shared by cp/mv/ln that turns the parsed arguments into (source, destination) pairs: the one that
+    stores args.srcdests"""
+    cands = [q for q, f in m.functions.items() if "." not in q and any(
+        isinstance(n, ast.Assign) and any(isinstance(t, ast.Attribute) and isinstance(t.value, ast.Name) and t.attr == "srcdests"
+                                          for t in n.targets) for n in ast.walk(f))]
+    if len(cands) != 1:
+        raise AnalysisError("list_drf: the function that stores args.srcdests was not found exactly once (%s)" % cands)
+    return cands[0]
 
 
 def r2_option_table(repo=None):
@@ -179,7 +224,7 @@ def r2_option_table(repo=None):
     params = [a.arg for a in il.args.args][1:]
     for cmd, builder, runner in (("cp", "_build_cp_parser", "_run_cp"), ("mv", "_build_mv_parser", "_run_mv"), ("ln", "_build_ln_parser", "_run_ln")):
         dests = set(_dests(m, builder)) | {"func"}
-        ps = m.fn("_parse_srcdest_args")
+        ps = m.flat(prepare_fn(m)).fn()
         added = {t.attr for n in ast.walk(ps) if isinstance(n, ast.Assign) for t in n.targets if isinstance(t, ast.Attribute)
                  and isinstance(t.value, ast.Name) and t.value.id == "args"}
         deleted = _deleted_keys(m, ps)
@@ -196,7 +241,7 @@ def r2_option_table(repo=None):
                             sorted(set(params) - final), sorted(final - set(params))), line=rf.lineno)
     # ls
     dests = set(_dests(m, "_build_ls_parser")) | {"func"}
-    rl = m.fn("_run_ls")
+    rl = m.flat("_run_ls").fn()
     deleted = _deleted_keys(m, rl)
     final = dests - deleted
     if final == set(params):
@@ -285,34 +330,47 @@ def r3_wiring(repo=None):
 
 
 def r4_channel_pairs(repo=None):
+    """Positive evidence only: the channel list may be split on commas and stripped, and each channel is mapped to one pair; any
+    filter (comprehension `if`, conditional append / continue, set()/dict.fromkeys(), remove/pop, prefix tests) is reported."""
     r = Rule("C18.R4", "every requested channel becomes exactly one (source, destination) pair")
     m = pyfront.mod("list_drf", repo)
-    q = "_parse_srcdest_args"
-    f = m.fn(q)
-    def stores(attr):
-        return [n for n in ast.walk(f) if isinstance(n, (ast.Assign, ast.AugAssign)) and any(
-            isinstance(t, ast.Attribute) and isinstance(t.value, ast.Name) and t.value.id == "args" and t.attr == attr
-            for t in (n.targets if isinstance(n, ast.Assign) else [n.target]))]
-    chs = stores("chs")
-    sd = stores("srcdests")
-    muts = [c for c in ast.walk(f) if isinstance(c, ast.Call) and isinstance(c.func, ast.Attribute)
-            and norm(ast.unparse(c.func.value)) in ("args.chs", "args.srcdests")
-            and c.func.attr in ("remove", "pop", "append", "extend", "insert", "clear", "sort", "reverse")]
-    ok_chs = len(chs) == 1 and pyutil.alpha(chs[0].value) == "[v1.strip() for v0 in args.chs for v1 in v0.strip().split(',')]"
-    comp = [n for n in sd if isinstance(n.value, ast.ListComp)]
-    ok_sd = len(sd) == 2 and len(comp) == 1 and not comp[0].value.generators[0].ifs and norm(ast.unparse(comp[0].value.generators[0].iter)) == "args.chs" \
-        and pyutil.alpha(comp[0].value) == "[(os.path.join(args.src, v0), os.path.join(args.dest, v0)) for v0 in args.chs]"
-    fallback = [n for n in sd if norm(ast.unparse(n.value)) == "[(args.src, args.dest)]"]
-    guarded = fallback and isinstance(m.parents.get(fallback[0]), ast.If) and norm(ast.unparse(m.parents.get(fallback[0]).test)) == "not args.srcdests"
-    if ok_chs and ok_sd and guarded and not muts:
-        r.ok("%s:%s %s" % (m.rel, f.lineno, q), "args.chs is only split on commas; srcdests has one unfiltered (src/ch, dest/ch) pair per channel, "
-             "or (src, dest) when no channel was given")
+    q = prepare_fn(m)
+    f = m.flat(q).fn()
+    susp = []
+    for n in ast.walk(f):
+        if isinstance(n, ast.comprehension) and n.ifs:
+            susp.append(n.ifs[0])
+        if isinstance(n, ast.Call):
+            cn = pyfront.call_name(n) or ""
+            if cn in ("set", "frozenset", "dict.fromkeys", "filter", "os.path.commonprefix", "os.path.commonpath", "collections.OrderedDict.fromkeys"):
+                susp.append(n)
+            if isinstance(n.func, ast.Attribute) and n.func.attr in ("remove", "pop", "discard", "clear", "startswith") and not cn.startswith("os."):
+                susp.append(n)
+        if isinstance(n, (ast.For, ast.While)):
+            for x in ast.walk(n):
+                if isinstance(x, ast.If) and any(isinstance(y, (ast.Continue, ast.Break)) or (
+                        isinstance(y, ast.Call) and isinstance(y.func, ast.Attribute) and y.func.attr in ("append", "extend", "add"))
+                        for y in ast.walk(x)):
+                    susp.append(x)
+    pairs = [n for n in ast.walk(f) if isinstance(n, (ast.ListComp, ast.GeneratorExp)) and isinstance(n.elt, ast.Tuple) and len(n.elt.elts) == 2
+             and all(isinstance(e, ast.Call) and pyfront.call_name(e) == "os.path.join" for e in n.elt.elts)]
+    pair_ok = False
+    for pc in pairs:
+        v = pc.generators[0].target
+        if isinstance(v, ast.Name) and [norm(ast.unparse(e)) for e in pc.elt.elts] == [
+                "os.path.join(args.src, %s)" % v.id, "os.path.join(args.dest, %s)" % v.id] and len(pc.generators) == 1:
+            pair_ok = True
+    fallback = [n for n in ast.walk(f) if isinstance(n, ast.Assign) and norm(ast.unparse(n.value)) == "[(args.src, args.dest)]"]
+    if susp:
+        bad = susp[0]
+        r.violation(m.rel, q, norm(ast.unparse(bad))[:100], "the list of requested channels is filtered, de-duplicated or otherwise "
+                    "modified before the transfer loops: a requested channel can be skipped (e.g. a nested channel together with "
+                    "--only), so fewer files are transferred than the equivalent listing selects", line=getattr(bad, "lineno", f.lineno))
+    elif pair_ok and fallback:
+        r.ok("%s:%s %s" % (m.rel, f.lineno, q), "the channel values are only split on commas and stripped; one unfiltered (src/ch, dest/ch) pair "
+             "per channel, or (src, dest) when no channel was given")
     else:
-        bad = (muts or [x for x in chs[1:]] or sd or [f])[0]
-        r.violation(m.rel, q, norm(ast.unparse(bad))[:100] if bad is not f else "channel list handling",
-                    "the list of requested channels is filtered, de-duplicated or otherwise modified before the transfer loops: a "
-                    "requested channel can be skipped (e.g. a nested channel together with --only), so fewer files are transferred "
-                    "than the equivalent listing selects", line=getattr(bad, "lineno", f.lineno))
+        raise AnalysisError("%s: construction of the (source, destination) pairs not recognised" % q)
     r.guard(1)
     return r
 
